@@ -22,6 +22,7 @@ CONSTANTS MCPods,       \* pods that may be set up
           MCMulti,      \* subset of BOOLEAN
           MCHow,        \* teardown variants, subset of {"cni", "dp", "generic"} (generic = GenericTearDown alone, the fallback DEL)
           BadDesign,    \* "" or the name of a seeded design error
+          MCSteal,      \* BOOLEAN: may a pod be given the address of a pod that was never torn down (lost / late DEL)
           MCEniGone,    \* BOOLEAN: may an ENI vanish while pods use it
           MCEnis,       \* ENIs (subnets) to choose from, subset of {1, 2}
           GenLen, GenOn
@@ -37,20 +38,21 @@ Ip4(e, k) == <<10, 10 + e, 0, k>>
 Ip6(e, k) == B16(16, e, 0, k)
 HostNo(p, i) == 16 * p + i + 1
 (* ae = the subnet the pod address comes from: normally that of ENI e; when an address is re-used it may be another ENI's *)
-MCCfg(p, i, dp, fam, e, ae, def, multi, extra, trunk, peer) ==
+(* ap = the pod slot the host number of the address comes from: normally p itself                                        *)
+MCCfg(p, i, dp, fam, e, ae, ap, def, multi, extra, trunk, peer) ==
     LET v4 == fam # "v6"  v6 == fam # "v4" IN
     [att |-> 2 * (p - 1) + i + 1, pod |-> p, dp |-> dp, ifname |-> IF i = 0 THEN "eth0" ELSE "eth1",
      hostveth |-> IF i = 0 THEN <<"caliA0", "caliB0", "caliC0">>[p] ELSE <<"caliA1", "caliB1", "caliC1">>[p],
      eni |-> IF dp = "exclusive" THEN "eniX" ELSE IF e = 1 THEN "eth1" ELSE "eth2",
      slave |-> IF dp = "ipvlan" THEN (IF e = 1 THEN "ipvl_3" ELSE "ipvl_4") ELSE "",
-     ip4 |-> IF v4 THEN Ip4(ae, HostNo(p, i)) ELSE <<>>, len4 |-> IF v4 THEN 24 ELSE 0,
-     ip6 |-> IF v6 THEN Ip6(ae, HostNo(p, i)) ELSE <<>>, len6 |-> IF v6 THEN 64 ELSE 0,
+     ip4 |-> IF v4 THEN Ip4(ae, HostNo(ap, i)) ELSE <<>>, len4 |-> IF v4 THEN 24 ELSE 0,
+     ip6 |-> IF v6 THEN Ip6(ae, HostNo(ap, i)) ELSE <<>>, len6 |-> IF v6 THEN 64 ELSE 0,
      gw4 |-> IF v4 THEN Ip4(e, 253) ELSE <<>>, gw6 |-> IF v6 THEN B16(16, e, 255, 253) ELSE <<>>,
      egw4 |-> IF v4 /\ trunk THEN <<10, 99, 0, 253>> ELSE <<>>, egw6 |-> IF v6 /\ trunk THEN B16(153, 0, 255, 253) ELSE <<>>,
      strip |-> trunk, defroute |-> def, multi |-> multi, peer |-> peer,
      extra |-> (IF extra >= 1 /\ v4 THEN <<[ip |-> <<100, 100, 0, 0>>, len |-> 16, gw |-> Ip4(e, 253)]>> ELSE <<>>)
                \o (IF extra >= 1 /\ v6 THEN <<[ip |-> B16(238, 1, 0, 0), len |-> 64, gw |-> B16(16, e, 255, 253)]>> ELSE <<>>),
-     host4 |-> IF v4 THEN <<10, 88, 0, 10>> ELSE <<>>, host6 |-> IF v6 THEN B16(136, 0, 0, 16) ELSE <<>>, eniIdx |-> 2 + e, aeni |-> ae, enigone |-> FALSE]
+     host4 |-> IF v4 THEN <<10, 88, 0, 10>> ELSE <<>>, host6 |-> IF v6 THEN B16(136, 0, 0, 16) ELSE <<>>, eniIdx |-> 2 + e, aeni |-> ae, apod |-> ap, enigone |-> FALSE, superseded |-> FALSE]
 
 (* ---------------------------------------------------------------- the reference design *)
 Rt(t, dst, dev, gw, scope) == [table |-> t, dst |-> dst, dev |-> dev, gw |-> gw, scope |-> scope, metric |-> 0, type |-> "unicast", proto |-> "boot"]
@@ -64,7 +66,7 @@ If(b, s) == IF b THEN s ELSE <<>>
 SubLen(c, f) == IF f = 4 THEN c.len4 ELSE c.len6
 Sys6(c, dev) == If(6 \in Fams(c), <<[key |-> "net/ipv6/conf/" \o dev \o "/disable_ipv6=0", fam |-> 6]>>)
 Bad(x) == BadDesign = x
-NoFreed == [e |-> 0, fam |-> ""]
+NoFreed == [e |-> 0, fam |-> "", ap |-> 0]
 FamName(c) == IF Fams(c) = {4} THEN "v4" ELSE IF Fams(c) = {6} THEN "v6" ELSE "dual"
 
 PodTable(c) == 1000 + (IF c.ifname = "eth0" THEN 2 ELSE 3)
@@ -160,7 +162,7 @@ AttId(p, i) == 2 * (p - 1) + i + 1
 
 StepRec(p, i, dp, fam, e, def, multi, extra, trunk, peer) ==
     [a |-> "setup", p |-> p, i |-> i, dp |-> dp, fam |-> fam, eni |-> e, def |-> def, multi |-> multi, extra |-> extra, trunk |-> trunk,
-     peer |-> peer, aset |-> ASet, how |-> "", keep |-> FALSE]
+     peer |-> peer, aset |-> ASet, how |-> "", keep |-> FALSE, steal |-> 0]
 
 (* parameter choices of a first interface; the generator draws one at random per step instead of branching over all *)
 Params == { r \in [dp : MCDps, fam : MCFams, e : MCEnis, multi : MCMulti, extra : MCExtra, trunk : MCTrunk, peer : BOOLEAN, aset : 0..2, keep : BOOLEAN] :
@@ -176,24 +178,38 @@ Step ==
         /\ r.dp # "exclusive" => r.e \notin eniGone
         (* keep: the new pod in this slot is given the address the slot's previous pod held (possibly on another ENI now) *)
         /\ (~GenOn /\ r.keep) => freed[p].e # 0
-        /\ LET kp == freed[p].e # 0 /\ (IF GenOn THEN RandomElement(1..4) # 1 ELSE r.keep)      \* the generator favours re-use
-               ae == IF kp THEN freed[p].e ELSE r.e
-               fam == IF kp THEN freed[p].fam ELSE r.fam
-               c == MCCfg(p, 0, r.dp, fam, r.e, ae, TRUE, r.multi, r.extra, r.trunk, r.peer)
+        (* random draws are bound by \E over a singleton so that each is made once per step *)
+        /\ \E kd \in (IF GenOn THEN {RandomElement(1..4)} ELSE {IF r.keep THEN 2 ELSE 1}) :        \* the generator favours re-use
+           \E sd \in (IF GenOn THEN {RandomElement(1..2)} ELSE {1}) :
+           LET kp == freed[p].e # 0 /\ kd # 1
+               (* steal: the pod is given the address a veth pod of another slot still carries (that pod is gone, its DEL lost or late) *)
+               cands == IF MCSteal /\ ~kp /\ r.dp \in {"policy", "exclusive"}
+                        THEN { q \in MCPods \ {p} : LET b == AttId(q, 0) IN Active(live, b) /\ live[b].dp = "policy" /\ ~live[b].multi /\ ~live[b].enigone }
+                        ELSE {} IN
+           \E q \in (IF GenOn THEN (IF sd = 1 THEN {RandomElement(IF cands = {} THEN {0} ELSE cands)} ELSE {0}) ELSE {0} \cup cands) :
+             LET kp2 == kp
+               v == IF q = 0 THEN NoAtt ELSE live[AttId(q, 0)]
+               ae == IF q # 0 THEN v.aeni ELSE IF kp THEN freed[p].e ELSE r.e
+               ap == IF q # 0 THEN v.apod ELSE IF kp THEN freed[p].ap ELSE p
+               fam == IF q # 0 THEN FamName(v) ELSE IF kp THEN freed[p].fam ELSE r.fam
+               c == MCCfg(p, 0, r.dp, fam, r.e, ae, ap, TRUE, r.multi, r.extra, r.trunk, r.peer)
                ref == RefSetup(c)
                A == Applied(ns, ref.links, ref.confs)
-               S == IF Bad("stale_from_rule_kept") THEN [A EXCEPT ![0].rules = @ \cup { x \in ns[0].rules : x.prio = 2048 /\ x.src \in PodAddrs(c) }] ELSE A IN
+               S == IF Bad("stale_from_rule_kept") THEN [A EXCEPT ![0].rules = @ \cup { x \in ns[0].rules : x.prio = 2048 /\ x.src \in PodAddrs(c) }]
+                    ELSE IF Bad("stale_route_kept") /\ \E x \in ns[0].routes : x.table = TMain /\ x.dst \in PodAddrs(c)
+                    THEN [A EXCEPT ![0].routes = { x \in @ : ~(x.table = TMain /\ x.dst \in PodAddrs(c)) } \cup { x \in ns[0].routes : x.table = TMain /\ x.dst \in PodAddrs(c) }]
+                    ELSE A IN
            /\ SetupOk(c, S)
            /\ G("C13", Judge(ViolSysctl(c, ref.confs)))
            /\ freed' = [freed EXCEPT ![p] = NoFreed] /\ UNCHANGED <<eniGone, orphaned>>
-           /\ H([StepRec(p, 0, r.dp, fam, r.e, TRUE, r.multi, r.extra, r.trunk, r.peer) EXCEPT !.aset = (IF Len(hist) > 0 THEN hist[1].aset ELSE r.aset), !.keep = kp])
+           /\ H([StepRec(p, 0, r.dp, fam, r.e, TRUE, r.multi, r.extra, r.trunk, r.peer) EXCEPT !.aset = (IF Len(hist) > 0 THEN hist[1].aset ELSE r.aset), !.keep = kp, !.steal = q])
   \/ \E p \in MCPods : \E extra \in Draw(MCExtra) :
         (* the second interface of a multi-network pod: other ENI, no default route, same datapath and families *)
         /\ IsLive(live, AttId(p, 0)) /\ live[AttId(p, 0)].multi /\ ~IsLive(live, AttId(p, 1))
         /\ LET c0 == live[AttId(p, 0)]
                fam == FamName(c0)
                e == 5 - c0.eniIdx
-               c == MCCfg(p, 1, c0.dp, fam, e, e, FALSE, TRUE, extra, c0.strip, FALSE)
+               c == MCCfg(p, 1, c0.dp, fam, e, e, p, FALSE, TRUE, extra, c0.strip, FALSE)
                ref == RefSetup(c) IN
            /\ \A b \in Atts : IsLive(live, b) /\ live[b].dp \in {"policy", "ipvlan"} /\ c.dp \in {"policy", "ipvlan"} /\ live[b].eniIdx = c.eniIdx => live[b].strip = c.strip
            /\ SetupOk(c, Applied(ns, ref.links, ref.confs))
@@ -203,12 +219,16 @@ Step ==
            /\ H(StepRec(p, 1, c0.dp, fam, e, FALSE, TRUE, extra, c0.strip, FALSE))
   \/ \E p \in MCPods : \E how \in Draw(MCHow) :
         /\ AttsOf(p) # {}
-        /\ IF how = "generic" THEN TeardownGeneric(p, RefGeneric(ns, AttsOf(p)), AttsOf(p))
-           ELSE TeardownOk(p, RefTeardown(ns, AttsOf(p)), AttsOf(p))
-        /\ freed' = [freed EXCEPT ![p] = IF IsLive(live, AttId(p, 0)) /\ (GenOn \/ "generic" \in MCHow) THEN [e |-> live[AttId(p, 0)].aeni, fam |-> FamName(live[AttId(p, 0)])] ELSE @]
-        /\ UNCHANGED <<eniGone, orphaned>>
-        /\ H([a |-> "teardown", p |-> p, i |-> 0, dp |-> "", fam |-> "", eni |-> 0, def |-> FALSE, multi |-> FALSE, extra |-> 0, trunk |-> FALSE,
-              peer |-> FALSE, aset |-> ASet, how |-> how, keep |-> FALSE])
+        (* the late DEL of a pod whose address was handed on finds no allocation record: it is the fallback DEL *)
+        /\ LET sup == \E a \in AttsOf(p) : IsLive(live, a) /\ live[a].superseded
+               hw == IF sup THEN "generic" ELSE how IN
+           /\ IF hw = "generic" THEN TeardownGeneric(p, RefGeneric(ns, AttsOf(p)), AttsOf(p))
+              ELSE TeardownOk(p, RefTeardown(ns, AttsOf(p)), AttsOf(p))
+           /\ freed' = [freed EXCEPT ![p] = IF ~sup /\ IsLive(live, AttId(p, 0)) /\ (GenOn \/ "generic" \in MCHow)
+                                            THEN [e |-> live[AttId(p, 0)].aeni, fam |-> FamName(live[AttId(p, 0)]), ap |-> live[AttId(p, 0)].apod] ELSE @]
+           /\ UNCHANGED <<eniGone, orphaned>>
+           /\ H([a |-> "teardown", p |-> p, i |-> 0, dp |-> "", fam |-> "", eni |-> 0, def |-> FALSE, multi |-> FALSE, extra |-> 0, trunk |-> FALSE,
+              peer |-> FALSE, aset |-> ASet, how |-> hw, keep |-> FALSE, steal |-> 0])
 
 EniName(e) == IF e = 1 THEN "eth1" ELSE "eth2"
 UsersOf(e) == { a \in Atts : IsLive(live, a) /\ live[a].eni = EniName(e) /\ live[a].dp \in {"policy", "ipvlan", "vlan"} }
@@ -220,7 +240,7 @@ EniGoneStep ==
           /\ eniGone' = eniGone \cup {e} /\ orphaned' = (orphaned \/ UsersOf(e) # {})
           /\ UNCHANGED freed
           /\ H([a |-> "enigone", p |-> 0, i |-> 0, dp |-> "", fam |-> "", eni |-> e, def |-> FALSE, multi |-> FALSE, extra |-> 0, trunk |-> FALSE,
-                peer |-> FALSE, aset |-> ASet, how |-> "", keep |-> FALSE])
+                peer |-> FALSE, aset |-> ASet, how |-> "", keep |-> FALSE, steal |-> 0])
 
 Emit(h) == Serialize(ToJson(h) \o "\n", IOEnv.VERIF_SCEN,
                      [format |-> "TXT", charset |-> "UTF-8", openOptions |-> <<"WRITE", "CREATE", "APPEND">>]).exitValue = 0
@@ -239,6 +259,8 @@ MCSpec == MCInit /\ [][MCNext]_<<vars, hist, served, freed, eniGone, orphaned>>
 (* torn down again.  Checked as an invariant by the *_bad runs: the guards are not vacuous.                                *)
 (* for the design error "a stale from-rule of the address survives Setup" (all teardowns generic): a policy-route pod can never *)
 (* be set up with an address that was last held on another ENI                                                                   *)
+(* for "a host route of the address on another link survives Setup": no pod can ever be set up with a stolen address *)
+StealRefused == ~\E a \in Atts : Active(live, a) /\ live[a].apod # live[a].pod
 ReuseRefused == ~\E a \in Atts : IsLive(live, a) /\ live[a].dp = "policy" /\ live[a].aeni # live[a].eniIdx - 2
 (* for "Teardown without an ENI index skips the rules": once a pod lost its ENI the node can never be idle again *)
 OrphanRefused == ~(orphaned /\ \A a \in Atts : ~IsLive(live, a) /\ owned[a] = {})
